@@ -93,6 +93,11 @@ def _timings():
 
 def run_specs(specs, lemma_ok=None, procs=None):
     procs = procs or min(16, os.cpu_count() or 1)
+    if not os.environ.get('VERIF_SPEED'):
+        # machine-speed factor for the solver budgets: measured once, in the parent, before the workers compete for
+        # the cores (symx.core.speed_factor); the workers inherit it
+        from symx import core as _core
+        os.environ['VERIF_SPEED'] = '%.2f' % _core.speed_factor()
     # longest-processing-time-first: measured wall times of earlier runs (vf/timings.json, a scheduling hint only)
     # where known, the static weight otherwise
     tm = _timings()
